@@ -7,6 +7,7 @@ import GsModel.Sec.Serve
 import GsModel.Params.Bind
 import GsModel.Pair.Encode
 import GsModel.Doc.Lines
+import GsModel.Scan.GoTypes
 import GsModel.Schema.Valid
 /-
   Model driver: one JSON request per line on stdin, one JSON response per line on stdout.
@@ -198,6 +199,50 @@ def handleDoc (j : Json) : Json :=
   | some (.minimum v e) => Json.mkObj [("r", Json.str "ok"), ("text", Json.str (String.ofList t.val)), ("kept", Json.bool true), ("num", decJson v), ("excl", Json.bool e)]
   | _ => Json.mkObj [("r", Json.str "ok"), ("text", Json.str (String.ofList t.val)), ("kept", Json.bool false)]
 
+instance : Inhabited Scan.GoTy := ⟨.iface⟩
+
+partial def jsonGoTy (j : Json) : Scan.GoTy :=
+  let elem := jsonGoTy ((j.getObjVal? "elem").toOption.getD .null)
+  match Diff.J.str j "k" with
+  | "basic" => .basic (match Diff.J.str j "kind" with | "bool" => .bool | "int" => .int | "float" => .float | _ => .str)
+  | "ptr" => .ptr elem
+  | "slice" => .slice elem
+  | "arr" => .arr elem
+  | "map" => .map elem
+  | "time" => .time
+  | "bytes" => .bytes
+  | "strct" => .strct ((Diff.J.arr j "fields").map (fun f =>
+      ({ json := Diff.J.str f "json", omitempty := Diff.J.bool f "omitempty", asString := Diff.J.bool f "asString" },
+       jsonGoTy ((f.getObjVal? "ty").toOption.getD .null))))
+  | _ => .iface
+
+partial def shapeJson (s : Schema.Schema) : Json :=
+  let base : List (String × Json) := if s.ty ≠ "" then [("ty", Json.str s.ty)] else []
+  let base := match s.items with | some it => base ++ [("items", shapeJson it)] | none => base
+  let base := match s.addl with | some a => base ++ [("addl", shapeJson a)] | none => base
+  let base := if s.props.isEmpty then base else base ++ [("props", Json.mkObj (s.props.map (fun kp => (kp.1, shapeJson kp.2))))]
+  Json.mkObj base
+
+/-- named references are outside the Lean fragment: the harness substitutes them before calling (k = "named" → ref) -/
+partial def shapeOfTy (strAll : Bool) (j : Json) : Json :=
+  match Diff.J.str j "k" with
+  | "named" => Json.mkObj [("ref", Json.str (Diff.J.str j "name"))]
+  | "ptr" => shapeOfTy strAll ((j.getObjVal? "elem").toOption.getD .null)
+  | "slice" | "arr" => Json.mkObj [("ty", Json.str "array"), ("items", shapeOfTy strAll ((j.getObjVal? "elem").toOption.getD .null))]
+  | "map" => Json.mkObj [("ty", Json.str "object"), ("addl", shapeOfTy strAll ((j.getObjVal? "elem").toOption.getD .null))]
+  | "strct" =>
+    let fs := Diff.J.arr j "fields"
+    let props := fs.map (fun f =>
+      let ty := (f.getObjVal? "ty").toOption.getD .null
+      let strOpt := Diff.J.bool f "asString" && (strAll || Scan.stringable (jsonGoTy ty))
+      (Diff.J.str f "json", if strOpt then Json.mkObj [("ty", Json.str "string")] else shapeOfTy strAll ty))
+    if props.isEmpty then Json.mkObj [("ty", Json.str "object")] else Json.mkObj [("ty", Json.str "object"), ("props", Json.mkObj props)]
+  | _ => shapeJson (Scan.schemaOf strAll 40 (jsonGoTy j))
+
+/-- {"op":"scan.schema","ty":GoTy,"strAll":bool} → structural shape of the schema the scanner builds -/
+def handleScanSchema (j : Json) : Json :=
+  Json.mkObj [("r", Json.str "ok"), ("schema", shapeOfTy (Diff.J.bool j "strAll") ((j.getObjVal? "ty").toOption.getD .null))]
+
 partial def toJ (j : Json) : Schema.J :=
   match j with
   | .null => .null
@@ -251,6 +296,7 @@ def handle (line : String) : Json :=
     | "ops.gather" => handleGather j
     | "sec.serve" => handleSec j
     | "param.bind" => handleBind j
+    | "scan.schema" => handleScanSchema j
     | "doc.roundtrip" => handleDoc j
     | "pair.roundtrip" => handlePair j
     | "resp.dispatch" => handleDispatch j
